@@ -33,7 +33,8 @@ def evaluate(nd, spec):
     f = eval(spec['fsrc'], {'np': np})
     kw = dict(spec['kw'])
     if spec.get('step') is not None:
-        kw['step'] = nd.MinStepGenerator(**{k: v for k, v in spec['step'].items() if k != '_kind'})
+        kw['step'] = getattr(nd, 'MaxStepGenerator' if spec['step'].get('_kind') == 'max' else 'MinStepGenerator')(
+            **{k: (np.array(v) if isinstance(v, list) else v) for k, v in spec['step'].items() if k != '_kind'})
     d = cls(f, full_output=True, **kw)
     val, info = d(np.array(spec['x']) if isinstance(spec['x'], list) else spec['x'])
     return {'value': hexify(val), 'error_estimate': hexify(info.error_estimate), 'final_step': hexify(info.final_step), 'index': [int(i) for i in np.atleast_1d(info.index).ravel()]}
@@ -205,6 +206,33 @@ def detour_grid(ctx, nd):
     return obs
 
 
+def array_step_histories(ctx, nd):
+    """Generators built with an ndarray base step (one step size per coordinate), reused: the same object called at x1 (|x1| > 1, so the
+    nominal step is not 1) and then at x2, and one generator shared by two objects.  Every call must equal the fresh evaluation."""
+    obs = []
+    fsrc = VFUNCS['sumsq']
+    f = eval(fsrc, {'np': np})
+    for kind, base in (('min', [1e-4, 2e-4]), ('max', [0.5, 0.25]), ('min', [1e-3, 1e-3])):
+        for cname, kw in (('Gradient', {'method': 'central'}), ('Hessdiag', {'method': 'central'}), ('Jacobian', {'method': 'forward'})):
+            stepspec = {'_kind': kind, 'base_step': base, 'num_steps': 9, 'step_ratio': 2.0}
+            mk = lambda: getattr(nd, 'MaxStepGenerator' if kind == 'max' else 'MinStepGenerator')(base_step=np.array(base), num_steps=9, step_ratio=2.0)     # noqa
+            fs = fsrc if cname != 'Jacobian' else VFUNCS['vec']
+            ff = eval(fs, {'np': np})
+            gen = mk()
+            d = getattr(nd, cname)(ff, full_output=True, step=gen, **kw)
+            d2 = getattr(nd, cname)(ff, full_output=True, step=gen, **kw)          # a second object sharing the generator
+            for obj, x in ((d, [3.0, -7.5]), (d, [0.4, 0.9]), (d2, [0.4, 0.9]), (d, [12.0, 0.1]), (d2, [3.0, -7.5])):
+                try:
+                    val, info = obj(np.array(x))
+                except Exception:   # noqa
+                    continue
+                s = {'class': cname, 'fsrc': fs, 'kw': dict(kw), 'x': x, 'step': stepspec}
+                obs.append((s, {'value': hexify(val), 'error_estimate': hexify(info.error_estimate), 'final_step': hexify(info.final_step),
+                                'index': [int(i) for i in np.atleast_1d(info.index).ravel()]}))
+                ctx.count(1, ('array-step-history', cname, kind))
+    return obs
+
+
 def key_histories(ctx, rng, N):
     from numdifftools import finite_difference as fdm
     cases, descs = [], []
@@ -279,6 +307,7 @@ def run(ctx):
     for h in range(ctx.n(12, 120)):
         all_obs += history_run(ctx, rng, nd, int(rng.integers(4, 13)) if not ctx.thorough else int(rng.integers(8, 41)))
     all_obs += detour_grid(ctx, nd)
+    all_obs += array_step_histories(ctx, nd)
     ref, err = fresh_reference([s for s, _ in all_obs], 'hist')
     if ref is None:
         ctx.brk('correspondence', 'fresh-interpreter reference evaluation failed', err)
